@@ -63,7 +63,20 @@ def E4():
             "libs": [{"name": "gates", "defs": [inv]}, {"name": "regs", "defs": [ff]}, {"name": "work", "defs": [T]}]}
 
 
-BASES = {"E1": E1, "E2": E2, "E3": E3, "E4": E4}
+def E5():
+    """two cells each holding an instance of the same leaf; the lower one leaves a pin open."""
+    sub = {"name": "sub", "ports": [port("si", 1, "in")],
+           "insts": [{"name": "u1", "ref": ["prims", "L1"]}],
+           "nets": [{"name": "sn", "bits": [[["P", "si", 0], ["I", "u1", "i", 0]]]}]}
+    T = {"name": "top", "ports": [port("x", 1, "in"), port("z", 1, "out")],
+         "insts": [{"name": "u2", "ref": ["prims", "L1"]}, {"name": "s0", "ref": ["work", "sub"]}],
+         "nets": [{"name": "n0", "bits": [[["P", "x", 0], ["I", "u2", "i", 0], ["I", "s0", "si", 0]]]},
+                  {"name": "n1", "bits": [[["I", "u2", "o", 0], ["P", "z", 0]]]}]}
+    return {"name": "e5", "top": ["work", "top"], "top_name": "top",
+            "libs": [{"name": "prims", "defs": [dict(L1)]}, {"name": "work", "defs": [sub, T]}]}
+
+
+BASES = {"E1": E1, "E2": E2, "E3": E3, "E4": E4, "E5": E5}
 
 
 def bus_renderings(width):
